@@ -270,6 +270,12 @@ func c20Replay(c *Ctx, tp *tape.Tape, extra map[string]any) *Failure {
 	if extra == nil {
 		return nil
 	}
+	if st, ok := extra["status"]; ok {
+		if key, msg := c.c20StatusCase(fmt.Sprint(st)); key != "" {
+			return &Failure{Key: key, Msg: msg, Extra: extra}
+		}
+		return nil
+	}
 	corpus, _ := Corpus()
 	for _, cc := range corpus {
 		if cc.File+"|"+cc.Title != fmt.Sprint(extra["corpus"]) {
@@ -331,40 +337,49 @@ func (c *Ctx) c20Status() {
 			continue
 		}
 		m.get()
-		w, err := world.New(c.Root, world.Opts{Model: "IOS", Files: map[string]string{"router": "ip route 10.0.0.0 255.0.0.0 10.1.1.1\n"}})
-		if err != nil {
-			c.T.Fatal(err)
-		}
-		st := filepath.Join(w.Dir, "status", "router")
-		if m.text == "\x00DIR" {
-			os.Mkdir(st, 0755)
-		} else {
-			os.WriteFile(st, []byte(m.text), 0644)
-		}
-		cmd := exec.Command(filepath.Join(bin, "missing-approve"))
-		cmd.Env = append(os.Environ(), "HOME="+w.Dir)
-		cmd.Dir = w.Dir
-		out, err := cmd.CombinedOutput()
-		code := 0
-		if ee, ok := err.(*exec.ExitError); ok {
-			code = ee.ExitCode()
-		} else if err != nil {
-			c.HarnessError("missing-approve: %v", err)
-		}
 		c.Res.Evaluations++
 		c.Count("status_cases", 1)
 		c.NonTrivial("status", m.desc)
-		if code > 1 || strings.Contains(string(out), "panic:") || strings.Contains(string(out), "goroutine ") {
-			key := "panic|missing-approve|status"
-			if !c.NoteKnown(key) && !c.reported[key] {
-				c.reported[key] = true
-				c.Res.Violations = append(c.Res.Violations, Replay{Property: "C20", Seed: c.Seed, Key: key,
-					Msg:   fmt.Sprintf("missing-approve exit %d on status file %q: %s", code, m.desc, firstLine(string(out))),
-					Extra: map[string]any{"status": m.text, "statusmut": mi}, Input: map[string]any{"status_file": m.text, "output": strings.Split(string(out), "\n")}})
-			}
+		if key, msg := c.c20StatusCase(m.text); key != "" && !c.NoteKnown(key) && !c.reported[key] {
+			c.reported[key] = true
+			c.Res.Violations = append(c.Res.Violations, Replay{Property: "C20", Seed: c.Seed, Key: key,
+				Msg: msg + " (status file: " + m.desc + ")", Extra: map[string]any{"status": m.text},
+				Input: map[string]any{"status_file": m.text}})
 		}
-		os.RemoveAll(w.Dir)
 	}
+}
+
+// c20StatusCase runs the real missing-approve binary on one status file.
+func (c *Ctx) c20StatusCase(text string) (key, msg string) {
+	bin := os.Getenv("VERIF_BIN")
+	if bin == "" {
+		bin = "/verif/.build/bin"
+	}
+	w, err := world.New(c.Root, world.Opts{Model: "IOS", Files: map[string]string{"router": "ip route 10.0.0.0 255.0.0.0 10.1.1.1\n"}})
+	if err != nil {
+		c.T.Fatal(err)
+	}
+	defer os.RemoveAll(w.Dir)
+	st := filepath.Join(w.Dir, "status", "router")
+	if text == "\x00DIR" {
+		os.Mkdir(st, 0755)
+	} else {
+		os.WriteFile(st, []byte(text), 0644)
+	}
+	cmd := exec.Command(filepath.Join(bin, "missing-approve"))
+	cmd.Env = append(os.Environ(), "HOME="+w.Dir)
+	cmd.Dir = w.Dir
+	out, err := cmd.CombinedOutput()
+	code := 0
+	if ee, ok := err.(*exec.ExitError); ok {
+		code = ee.ExitCode()
+	} else if err != nil {
+		c.HarnessError("missing-approve: %v", err)
+	}
+	if code > 1 || strings.Contains(string(out), "panic:") || strings.Contains(string(out), "goroutine ") {
+		return "panic|missing-approve|status", fmt.Sprintf("missing-approve exit %d: %s", code, firstLine(string(out)))
+	}
+	return "", ""
 }
 
 func init() {
